@@ -3,6 +3,8 @@
 package sql
 
 import (
+	"strings"
+
 	"github.com/jdillenkofer/pithos/internal/storage/database/repository/object"
 	"github.com/jdillenkofer/pithos/internal/storage/metadatapart/metadatastore"
 )
@@ -52,3 +54,16 @@ func specETagConditionHolds(e *object.Entity, ifMatch *string) bool {
 // specNotAGeneratedVersion: the row is the null version (version id "null", or none at all on rows that predate
 // versioning support) - the only version that may be modified in place.
 func specNotAGeneratedVersion(v *string) bool { return v == nil || *v == "null" }
+
+// ---- C06: CommonPrefixes ----
+
+// specCommonPrefixOK: S3 groups a key under a common prefix iff the key contains the delimiter AFTER the requested
+// prefix; the common prefix is the key up to and including the first such delimiter. (key starts with prefix.)
+func specCommonPrefixOK(prefix string, key string, delimiter string, result *string) bool {
+	rest := key[len(prefix):]
+	i := strings.Index(rest, delimiter)
+	if i < 0 {
+		return result == nil
+	}
+	return result != nil && *result == key[:len(prefix)+i+len(delimiter)]
+}
